@@ -1,9 +1,41 @@
 package props
 
 import (
+	"fmt"
+	"strings"
+
+	"pgregory.net/rapid"
+
 	"verif/internal/gen"
 	m "verif/internal/model"
 )
+
+// c08Chain is a filter section whose filters hand a value on: hraw marks its
+// input as safe, hesc escapes what is not marked (and marks the result), up
+// returns a new plain string, fid returns its input unchanged.
+type c08Chain struct {
+	Body    string   `json:"body"`
+	Filters []string `json:"filters"`
+	Where   string   `json:"where"` // top | setcap | macro | block
+}
+
+func c08ChainExpect(cs *c08Chain) string {
+	text, safe := cs.Body, false
+	for _, f := range cs.Filters {
+		switch f {
+		case "hraw":
+			safe = true
+		case "up":
+			text, safe = strings.ToUpper(text), false
+		case "hesc":
+			if !safe {
+				text = strings.NewReplacer("&", "&amp;", "<", "&lt;", ">", "&gt;", `"`, "&quot;", "'", "&#39;").Replace(text)
+				safe = true
+			}
+		}
+	}
+	return "A" + text + "Z"
+}
 
 // C08: captured output.
 func init() {
@@ -13,7 +45,7 @@ func init() {
 		Technique: "property-based testing (rapid): generated nestings of capturing constructs vs reference evaluator, comparing the exact main-writer output",
 		Rule: "programs nesting (depth <= 5) set-capture, filter sections with 1-3 recording filters, macro calls and block() around text and prints, captures inside loops, captured variables printed several times, more output after each construct; " +
 			"oracle: reference evaluator main-writer output and callback log (filter inputs are the captured strings). " +
-			"Non-trivial: >= 2 capturing constructs of different kinds were executed; distinct by program. Also: a failing print or include inserted, after some text, at a random statement of a random template (the output at the time of the error must be a prefix of the model output, so captured text must not have reached the main writer); a macro that loops and calls itself from the loop body (bounded depth) and reads loop variables, metadata, parameters and captures after the nested call; a block that prints nothing itself (text under conditions and loops on the surrounding loop's variables) rendered in place and through block(), captures and filter sections in every iteration; large instances (150 nested captures, 1200 sibling captures, a 330 KB capture).",
+			"Non-trivial: >= 2 capturing constructs of different kinds were executed; distinct by program. Also: a failing print or include inserted, after some text, at a random statement of a random template (the output at the time of the error must be a prefix of the model output, so captured text must not have reached the main writer); a macro that loops and calls itself from the loop body (bounded depth) and reads loop variables, metadata, parameters and captures after the nested call; a block that prints nothing itself (text under conditions and loops on the surrounding loop's variables) rendered in place and through block(), captures and filter sections in every iteration; large instances (150 nested captures, 1200 sibling captures, a 330 KB capture); filter sections whose 1-4 filters mark, escape, rewrite or pass on their input (hraw / hesc / up / fid), at the top level, in a capture, a macro and a block - the section's value is what the chain makes of the text, each filter receiving the previous one's result unchanged (analytic oracle).",
 		Assumptions: []string{"reference evaluator trusted inside the agreement region"},
 	}
 	sub := modelSub(p, "capture", compareOpts{}, func(cs *progCase, res *m.Result) bool {
@@ -26,7 +58,46 @@ func init() {
 		}
 		return k >= 2
 	})
+	// the value of a filter section is what the *chain* of its filters makes of
+	// the captured text: each filter receives what the previous one returned
+	// (a value marked safe stays marked), not a re-made string
+	chain := NewSub(p, "filter-chain", func(c *Ctx, cs *c08Chain) *Fail {
+		sec := &m.N{K: "filter", Names: cs.Filters, Body: []*m.N{m.NText(cs.Body)}}
+		var body []*m.N
+		switch cs.Where {
+		case "setcap":
+			body = []*m.N{m.NText("A"), {K: "setcap", S: "cv", Body: []*m.N{sec}}, m.NPrint(m.EName("cv")), m.NText("Z")}
+		case "macro":
+			body = []*m.N{{K: "macro", S: "mf", Body: []*m.N{sec}}, m.NText("A"), m.NPrint(&m.E{K: "mcall", S: "mf", T: "self"}), m.NText("Z")}
+		case "block":
+			body = []*m.N{m.NText("A"), {K: "block", S: "bf", Body: []*m.N{sec}}, m.NText("Z")}
+		default:
+			body = []*m.N{m.NText("A"), sec, m.NText("Z")}
+		}
+		prog := &m.Program{Env: "core", Loader: "memory", Tpls: []*m.Tpl{{Name: "main", Body: body}}, Entry: "main"}
+		r := c.SB.Do(execReq(prog))
+		key, _ := jsonStr(cs)
+		marked := false
+		for i, f := range cs.Filters {
+			marked = marked || (f == "hraw" && i+1 < len(cs.Filters))
+		}
+		c.Ev.Count("chain\x00"+key, marked && strings.ContainsAny(cs.Body, "<>&\"'"), "filter-chain", "where:"+cs.Where, fmt.Sprintf("filters:%d", len(cs.Filters)))
+		if r.Fatal() || r.Status == "infra" {
+			return fatalFail(r)
+		}
+		if want := c08ChainExpect(cs); r.Status != "ok" || r.Out != want {
+			return &Fail{Sig: "filter-chain", Expected: want, Observed: r.Status + ": " + r.Out + r.Err}
+		}
+		return nil
+	})
 	p.Run = func(c *Ctx) {
+		chain.Rapid(c, c.Share(c.Pick(1500, 100000)), func(t *rapid.T) *c08Chain {
+			return &c08Chain{
+				Body:    rapid.StringOfN(rapid.SampledFrom([]rune("<b>&\"'x y")), 1, 8, -1).Draw(t, "body"),
+				Filters: rapid.SliceOfN(rapid.SampledFrom([]string{"hraw", "hesc", "up", "fid", "hraw", "hesc"}), 1, 4).Draw(t, "filters"),
+				Where:   rapid.SampledFrom([]string{"top", "setcap", "macro", "block"}).Draw(t, "where"),
+			}
+		})
 		runScale(c, sub, "C08")
 		cfg := gen.Cfg{ExprDepth: 2, BodyLen: 4, Nest: 5, Calls: true, If: true, For: true, Set: true, SetCap: true, FilterSec: true, Macros: true, Blocks: true, HostileText: true, BigText: true, RecMacro: true}
 		sub.Rapid(c, c.Share(c.Pick(16000, 800000)), progGen(cfg))
